@@ -211,9 +211,10 @@ def run(ctx):
     hung = [i for i, c in enumerate(cases) if c["kind"] == "tworun" and c["case"].get("hung")]
     for i in hung[:3]:
         ctx.violation({"kind": "no-result", "case": describe(cases[i]), "case_index": i,
-                       "explanation": "guidedremediation.FixVulns (or the analysis around it) did not return within 30 s on this "
-                                      "input: no report and no written manifest to compare - every other case of this run takes "
-                                      "a few milliseconds"})
+                       "explanation": "guidedremediation.FixVulns (or the analysis around it) did not return on this input: no "
+                                      "report and no written manifest to compare. A miss of the 30 s watchdog is only a candidate; "
+                                      "the first one of a run is confirmed by letting that single execution continue alone up to "
+                                      "300 s (10x) - this one was still not back. Every other case takes a few milliseconds."})
     if corpus_corr and not corr_bad:
         w = corpus_corr[0]
         ctx.violation({"kind": "correspondence-broken", "correspondence": CORR, "theorems_no_longer_tied_to_code": THEOREMS,
@@ -255,6 +256,8 @@ def run(ctx):
         if len((c.get("a0") or {}).get("kept") or []) >= 1 and len(c.get("all_patches") or []) >= 1:
             seen.add(vlib.sha([u["sys"], u["schema"], u["manifest"], u["vulns"], o]))
     dist["two_run_cases_with_an_error_return"] = errs
+    ctx.coverage["load_induced_timeouts"] = sum(1 for c in two if c.get("load_induced_timeout"))
+    ctx.coverage["confirmed_no_result_cases"] = sum(1 for c in two if c.get("hung"))
     dist["synthetic"] = {k[0]: len(by_kind.get(k[0], [])) for k in KINDS[:4]}
     gs = by_kind.get("graph", [])
     fl = {"analyses": len(gs), "vulnerabilities": 0, "depth_filter_on": 0, "rejected_by_depth": 0, "severity_filter_on": 0,
